@@ -294,6 +294,47 @@ pub fn drive_dir(seed: u64, tier: &str, stim: Option<&str>, zero: &str, out: &mu
         let e: Vec<Entry> = (0..n as u64).map(|i| Entry { tile_id: 7 + i, run_length: 1, length: 100, offset: 100 * i }).collect();
         run_dir_case(&DirCase { entries: e, kind: "rand" }, &all, out);
     }
+    // a directory beyond 65536 entries: the lossless clause only (the byte-exact clause at this size is thorough-tier);
+    // "same" is literal equality of the parsed list with the input list
+    {
+        let n = 70_000u64;
+        let e: Vec<Entry> = (0..n).map(|i| Entry { tile_id: 9 + i + (i / 1000), run_length: 1, length: 64, offset: 64 * i }).collect();
+        let dir = Directory::from(e.clone());
+        let mut obs = Vec::new();
+        for &c in &all {
+            for mode in ["sync", "async"] {
+                let comp = comp_of(c);
+                let d = dir.clone();
+                let w = guard(|| {
+                    if mode == "sync" {
+                        let mut b = Vec::new();
+                        d.to_writer(&mut b, comp).map(|()| b)
+                    } else {
+                        let mut cur = futures::io::Cursor::new(Vec::new());
+                        block_on(d.to_async_writer(&mut cur, comp)).map(|()| cur.into_inner())
+                    }
+                });
+                let mut o = json!({"comp": c, "mode": mode, "enc": res_tag(&w), "dec": "none", "same": false, "n_parsed": 0});
+                if let Ok(Ok(bytes)) = w {
+                    let r = guard(|| {
+                        if mode == "sync" {
+                            Directory::from_bytes(&bytes, comp)
+                        } else {
+                            block_on(Directory::from_async_reader(&mut futures::io::Cursor::new(&bytes), bytes.len() as u64, comp))
+                        }
+                    });
+                    o["dec"] = json!(res_tag(&r));
+                    if let Ok(Ok(p)) = r {
+                        let l = Vec::<Entry>::from(p);
+                        o["n_parsed"] = json!(l.len());
+                        o["same"] = json!(l == e);
+                    }
+                }
+                obs.push(o);
+            }
+        }
+        out.emit(json!({"ev": "DirRoundTrip", "n": n, "obs": obs}));
+    }
     }
     if zero == "no" {
         return;
@@ -315,6 +356,12 @@ pub fn drive_dir(seed: u64, tier: &str, stim: Option<&str>, zero: &str, out: &mu
                 if let Some(pos) = zero_len_patch_pos(&raw, n, p) {
                     raw[pos] = 0;
                     run_zero_raw_case(&raw, n, p, &all, out);
+                    // the same entry with a length of 2^32 (and 3 * 2^32): reads as 0 in the 32-bit length field
+                    for wrapped in [vec![0x80u8, 0x80, 0x80, 0x80, 0x10], vec![0x80, 0x80, 0x80, 0x80, 0x30]] {
+                        let mut w = raw.clone();
+                        w.splice(pos..pos + 1, wrapped);
+                        run_zero_raw_case(&w, n, p, &all, out);
+                    }
                 }
             }
         }
@@ -355,7 +402,8 @@ fn run_zero_raw_case(raw: &[u8], n: usize, p: usize, comps: &[u8], out: &mut Out
                     block_on(Directory::from_async_reader(&mut cur, bytes.len() as u64, comp))
                 }
             });
-            dec.push(json!({"comp": c, "mode": mode, "res": res_tag(&r)}));
+            let zero_out = matches!(&r, Ok(Ok(d)) if Vec::<Entry>::from(d.clone()).iter().any(|e| e.length == 0));
+            dec.push(json!({"comp": c, "mode": mode, "res": res_tag(&r), "zero_out": zero_out}));
         }
     }
     out.emit(json!({"ev": "DirZeroRaw", "raw": bytes_json(raw), "n": n, "p": p + 1, "dec": dec}));
